@@ -60,11 +60,15 @@ impl AwakeFlag {
     /// Mark the driver as awake by overwriting the flag byte with `AWAKE`.
     /// This intentionally clears any previously set `NOTIFIED` flag.
     pub fn set(&self) {
+        #[cfg(compio_verif)]
+        compio_log::verif::point("awake.set", self as *const _ as u64, 0);
         self.0.store(AWAKE, Ordering::Release);
     }
 
     /// Reset the flags. Returns true if it was notified.
     pub fn reset(&self) -> bool {
+        #[cfg(compio_verif)]
+        compio_log::verif::point("awake.reset", self as *const _ as u64, 0);
         (self.0.swap(IDLE, Ordering::AcqRel) & NOTIFIED) != 0
     }
 
@@ -72,6 +76,8 @@ impl AwakeFlag {
     /// notified flag is set. If the awake flag is not set, the driver needs
     /// to be notified through a syscall.
     pub fn wake(&self) -> bool {
+        #[cfg(compio_verif)]
+        compio_log::verif::point("awake.wake", self as *const _ as u64, 0);
         self.0.fetch_or(NOTIFIED, Ordering::AcqRel) != 0
     }
 }
